@@ -1,4 +1,5 @@
 import H5V.Model.HtmlTok
+import H5V.Lemmas.HtmlTokFields
 /-!
 Reader lemmas for the HTML tokenizer model: every reading primitive is *monotone* in the unread
 input (a completed read is unaffected by appending more input) and *resumable* (a suspended read,
@@ -69,5 +70,391 @@ theorem discardChar_mono (m : Mach) (inp e : Str) (c : Char) (h : peek m inp = s
   unfold peek at h
   split <;> simp_all
   cases inp <;> simp_all
+
+/-- shape of a suspended `get_char` -/
+theorem getChar_none (o : Opts) (m m' : Mach) (inp inp' : Str)
+    (h : getChar o m inp = (none, m', inp')) :
+    inp' = [] ∧ m.reconsume = false ∧
+      ((inp = [] ∧ m' = m) ∨ (inp = ['\n'] ∧ m.ignoreLf = true ∧ m' = m.setIgnoreLf false)) := by
+  unfold getChar at h
+  split at h
+  · simp at h
+  · rename_i hr
+    cases inp with
+    | nil => simp at h; simp_all
+    | cons x xs =>
+      simp only at h
+      have := preprocess_none o m m' x xs inp' h
+      simp_all
+
+/-- **resumable**: re-executing a suspended `get_char` after more input arrived is the read on the
+concatenated input -/
+theorem getChar_resume (o : Opts) (m m' : Mach) (inp inp' e : Str)
+    (h : getChar o m inp = (none, m', inp')) :
+    getChar o m' (inp' ++ e) = getChar o m (inp ++ e) := by
+  obtain ⟨h1, h2, h3⟩ := getChar_none o m m' inp inp' h
+  subst h1
+  rcases h3 with ⟨h3, h4⟩ | ⟨h3, h4, h5⟩
+  · subst h3 h4; rfl
+  · subst h3 h5
+    have hr' : (m.setIgnoreLf false).reconsume = false := by simp [h2]
+    cases e with
+    | nil =>
+      simp [getChar, h2, hr', preprocess, h4]
+    | cons x xs =>
+      simp only [getChar, h2, hr', List.nil_append, List.cons_append, Bool.false_eq_true, ↓reduceIte]
+      exact (preprocess_resume o m x xs h4).symm
+
+/-! ### eat -/
+
+theorem eatCmp_mono (eq : Char → Char → Bool) (s pat e : Str) (b : Bool)
+    (h : eatCmp eq s pat = some b) : eatCmp eq (s ++ e) pat = some b := by
+  induction s generalizing pat with
+  | nil =>
+    cases pat with
+    | nil => simpa [eatCmp] using h
+    | cons p ps => simp [eatCmp] at h
+  | cons c s ih =>
+    cases pat with
+    | nil => simpa [eatCmp] using h
+    | cons p ps =>
+      simp only [List.cons_append, eatCmp] at h ⊢
+      split <;> simp_all
+
+theorem eatCmp_nil_none (eq : Char → Char → Bool) (pat : Str) (hp : pat ≠ []) :
+    eatCmp eq [] pat = none := by
+  cases pat with
+  | nil => exact absurd rfl hp
+  | cons p ps => rfl
+
+theorem eatCmp_drop (eq : Char → Char → Bool) (s pat e : Str) (h : eatCmp eq s pat = some true) :
+    (s ++ e).drop pat.length = s.drop pat.length ++ e := by
+  induction s generalizing pat with
+  | nil =>
+    cases pat with
+    | nil => simp
+    | cons p ps => simp [eatCmp] at h
+  | cons c s ih =>
+    cases pat with
+    | nil => simp
+    | cons p ps =>
+      simp only [eatCmp] at h
+      split at h
+      · simpa using ih ps h
+      · simp at h
+
+theorem eatSkipLf_mono (m : Mach) (inp e : Str) (c : Char) (h : peek m inp = some c) :
+    eatSkipLf m (inp ++ e) = ((eatSkipLf m inp).1, (eatSkipLf m inp).2 ++ e) := by
+  unfold eatSkipLf
+  have hp := peek_mono m inp e c h
+  split
+  · simp only [h, hp]
+    split
+    · have hpk : peek (m.setIgnoreLf false) inp = some c := by simpa [peek] using h
+      exact discardChar_mono (m.setIgnoreLf false) inp e c hpk
+    · rfl
+  · rfl
+
+theorem eatSkipLf_none (m : Mach) (inp : Str) (h : peek m inp = none) : eatSkipLf m inp = (m, inp) := by
+  unfold eatSkipLf
+  split <;> simp [h]
+
+/-- side condition under which the look-ahead stash is sound: no pending "ignore LF" while text
+is stashed (preserved by every step: `Good`) -/
+def EatOk (m : Mach) : Prop := m.ignoreLf = true → m.tempBuf = []
+
+@[simp] theorem setTempBuf_setTempBuf (m : Mach) (a b : Str) :
+    (m.setTempBuf a).setTempBuf b = m.setTempBuf b := rfl
+
+theorem eatSkipLf_id (m : Mach) (inp : Str) (h : m.ignoreLf = false) : eatSkipLf m inp = (m, inp) := by
+  unfold eatSkipLf; simp [h]
+
+@[simp] theorem eatSkipLf_atEof (m : Mach) (inp : Str) : (eatSkipLf m inp).1.atEof = m.atEof := by
+  unfold eatSkipLf discardChar
+  repeat' split
+  all_goals simp
+
+/-- core of `eat` once the `ignore_lf` prologue is done -/
+def eatCore (m1 : Mach) (all : Str) (pat : Str) (eq : Char → Char → Bool) : Option Bool × Mach × Str :=
+  match eatCmp eq all pat with
+  | some true => (some true, m1.setTempBuf [], all.drop pat.length)
+  | some false => (some false, m1.setTempBuf [], all)
+  | none =>
+    if m1.atEof then (some false, m1.setTempBuf [], all)
+    else (none, m1.setTempBuf all, [])
+
+theorem eat_eq_core (m : Mach) (inp pat : Str) (eq : Char → Char → Bool) :
+    eat m inp pat eq = eatCore (eatSkipLf m inp).1 ((eatSkipLf m inp).1.tempBuf ++ (eatSkipLf m inp).2) pat eq := rfl
+
+theorem eatCore_mono (m1 m' : Mach) (all inp' e pat : Str) (eq : Char → Char → Bool) (b : Bool)
+    (hat : m1.atEof = false) (h : eatCore m1 all pat eq = (some b, m', inp')) :
+    eatCore m1 (all ++ e) pat eq = (some b, m', inp' ++ e) := by
+  unfold eatCore at h ⊢
+  cases hc : eatCmp eq all pat with
+  | none => simp [hc, hat] at h
+  | some b' =>
+    have hc' := eatCmp_mono eq all pat e b' hc
+    simp only [hc, hc'] at h ⊢
+    cases b' with
+    | true =>
+      simp only [Prod.mk.injEq] at h ⊢
+      obtain ⟨h1, h2, h3⟩ := h
+      refine ⟨h1, h2, ?_⟩
+      rw [← h3]
+      exact eatCmp_drop eq _ pat e hc
+    | false =>
+      simp only [Prod.mk.injEq] at h ⊢
+      obtain ⟨h1, h2, h3⟩ := h
+      exact ⟨h1, h2, by rw [← h3]⟩
+
+theorem eat_mono (m m' : Mach) (inp inp' e pat : Str) (eq : Char → Char → Bool) (b : Bool)
+    (hg : EatOk m) (hpat : pat ≠ []) (hat : m.atEof = false)
+    (h : eat m inp pat eq = (some b, m', inp')) :
+    eat m (inp ++ e) pat eq = (some b, m', inp' ++ e) := by
+  rw [eat_eq_core] at h ⊢
+  cases hpk : peek m inp with
+  | some c =>
+    rw [eatSkipLf_mono m inp e c hpk]
+    simp only [← List.append_assoc]
+    exact eatCore_mono _ _ _ _ _ _ _ _ (by simp [hat]) h
+  | none =>
+    obtain ⟨hr, hinp⟩ := peek_none m inp hpk
+    subst hinp
+    cases hil : m.ignoreLf with
+    | true =>
+      have ht := hg hil
+      rw [eatSkipLf_none m [] hpk] at h
+      simp [eatCore, ht, eatCmp_nil_none eq pat hpat, hat] at h
+    | false =>
+      rw [eatSkipLf_id m _ hil] at h ⊢
+      simp only [List.append_nil, List.nil_append] at h ⊢
+      have := eatCore_mono m m' m.tempBuf inp' e pat eq b hat h
+      simpa using this
+
+/-- shape of a suspended `eat`, and **resumability**: any later `eat` (the state re-executes its
+whole look-ahead sequence) behaves as on the concatenated input; the stash stays sound -/
+theorem eat_none (m m' : Mach) (inp inp' pat : Str) (eq : Char → Char → Bool)
+    (hg : EatOk m) (h : eat m inp pat eq = (none, m', inp')) :
+    inp' = [] ∧ EatOk m' ∧ m'.atEof = m.atEof ∧
+    ∀ (e pat' : Str) (eq' : Char → Char → Bool), eat m' e pat' eq' = eat m (inp ++ e) pat' eq' := by
+  rw [eat_eq_core] at h
+  unfold eatCore at h
+  split at h
+  · simp at h
+  · simp at h
+  · split at h
+    · simp at h
+    · simp only [Prod.mk.injEq, true_and] at h
+      obtain ⟨h1, h2⟩ := h
+      refine ⟨h2.symm, ?_, by simp [← h1], ?_⟩
+      · -- EatOk m'
+        subst h1
+        intro hil
+        simp only [setTempBuf_ignoreLf] at hil
+        -- ignoreLf survived the prologue ⇒ nothing was available ⇒ the stash is the (empty) old one
+        cases hpk : peek m inp with
+        | none =>
+          rw [eatSkipLf_none m inp hpk] at hil ⊢
+          have := hg hil
+          obtain ⟨_, hinp⟩ := peek_none m inp hpk
+          simp [this, hinp]
+        | some c =>
+          exfalso
+          unfold eatSkipLf at hil
+          simp only [hpk] at hil
+          split at hil
+          · unfold discardChar at hil
+            repeat' split at hil
+            all_goals simp at hil
+          · rename_i hx; simp [hx] at hil
+      · intro e pat' eq'
+        subst h1
+        rw [eat_eq_core, eat_eq_core]
+        cases hpk : peek m inp with
+        | some c =>
+          rw [eatSkipLf_mono m inp e c hpk]
+          -- after the prologue saw a character the flag is clear
+          have hil : (eatSkipLf m inp).1.ignoreLf = false := by
+            unfold eatSkipLf
+            simp only [hpk]
+            split
+            · unfold discardChar
+              repeat' split
+              all_goals simp
+            · rename_i hx; simpa using hx
+          rw [eatSkipLf_id _ e (by simpa using hil)]
+          simp [eatCore, List.append_assoc, setTempBuf_setTempBuf]
+        | none =>
+          obtain ⟨hr, hinp⟩ := peek_none m inp hpk
+          subst hinp
+          rw [eatSkipLf_none m [] hpk]
+          simp only [List.append_nil, List.nil_append]
+          cases hil : m.ignoreLf with
+          | true =>
+            have ht := hg hil
+            have : m.setTempBuf m.tempBuf = m := rfl
+            rw [this]
+          | false =>
+            have : m.setTempBuf m.tempBuf = m := rfl
+            rw [this]
+
+/-! ### pop_except_from / data-state read -/
+
+theorem popExceptFrom_mono (o : Opts) (set : List Char) (m m' : Mach) (r : SetRes) (inp inp' e : Str)
+    (h : popExceptFrom o set m inp = (some r, m', inp')) :
+    popExceptFrom o set m (inp ++ e) = (some r, m', inp' ++ e) := by
+  unfold popExceptFrom at h ⊢
+  split
+  · rename_i hs
+    simp only [hs, ↓reduceIte] at h
+    cases hg : getChar o m inp with
+    | mk c rest =>
+      cases c with
+      | none => simp [hg] at h
+      | some c =>
+        obtain ⟨m1, i1⟩ := rest
+        rw [getChar_mono o m m1 c inp i1 e hg]
+        simp_all
+  · rename_i hs
+    simp only [hs, Bool.false_eq_true, ↓reduceIte] at h
+    cases inp with
+    | nil => simp at h
+    | cons x xs =>
+      simp only [List.cons_append] at h ⊢
+      split
+      · rename_i hx
+        simp only [hx, ↓reduceIte] at h
+        cases hg : preprocess o m x xs with
+        | mk c rest =>
+          cases c with
+          | none => simp [hg] at h
+          | some c =>
+            obtain ⟨m1, i1⟩ := rest
+            rw [preprocess_mono o m m1 x c xs i1 e hg]
+            simp_all
+      · rename_i hx
+        simp only [hx, Bool.false_eq_true, ↓reduceIte] at h
+        simp_all
+
+theorem popExceptFrom_none (o : Opts) (set : List Char) (m m' : Mach) (inp inp' : Str)
+    (h : popExceptFrom o set m inp = (none, m', inp')) :
+    inp' = [] ∧ m.reconsume = false ∧
+      ((inp = [] ∧ m' = m) ∨ (inp = ['\n'] ∧ m.ignoreLf = true ∧ m' = m.setIgnoreLf false)) := by
+  unfold popExceptFrom at h
+  split at h
+  · cases hg : getChar o m inp with
+    | mk c rest =>
+      obtain ⟨m1, i1⟩ := rest
+      cases c with
+      | some c => simp [hg] at h
+      | none =>
+        simp only [hg, Option.map_none, Prod.mk.injEq, true_and] at h
+        obtain ⟨h1, h2⟩ := h
+        subst h1 h2
+        exact getChar_none o m m1 inp i1 hg
+  · rename_i hs
+    have hs' : o.exactErrors = false ∧ m.reconsume = false ∧ m.ignoreLf = false := by
+      simpa [and_assoc] using hs
+    cases inp with
+    | nil => simp at h; simp_all
+    | cons x xs =>
+      simp only at h
+      split at h
+      · cases hg : preprocess o m x xs with
+        | mk c rest =>
+          obtain ⟨m1, i1⟩ := rest
+          cases c with
+          | some c => simp [hg] at h
+          | none =>
+            have := preprocess_none o m m1 x xs i1 hg
+            simp_all
+      · simp at h
+
+theorem readData_mono (o : Opts) (m m' : Mach) (r : SetRes) (inp inp' e : Str)
+    (h : readData o m inp = (some r, m', inp')) :
+    readData o m (inp ++ e) = (some r, m', inp' ++ e) := by
+  unfold readData at h ⊢
+  split
+  · rename_i hs
+    simp only [hs, ↓reduceIte] at h
+    exact popExceptFrom_mono o _ m m' r inp inp' e h
+  · rename_i hs
+    simp only [hs, Bool.false_eq_true, ↓reduceIte] at h
+    cases inp with
+    | nil => simp at h
+    | cons x xs =>
+      simp only [List.cons_append] at h ⊢
+      split
+      · rename_i hx
+        simp only [hx, ↓reduceIte] at h
+        have := popExceptFrom_mono o _ m m' r (x :: xs) inp' e h
+        simpa using this
+      · rename_i hx
+        simp only [hx, Bool.false_eq_true, ↓reduceIte] at h
+        simp_all
+
+theorem readData_none (o : Opts) (m m' : Mach) (inp inp' : Str)
+    (h : readData o m inp = (none, m', inp')) :
+    inp' = [] ∧ m.reconsume = false ∧
+      ((inp = [] ∧ m' = m) ∨ (inp = ['\n'] ∧ m.ignoreLf = true ∧ m' = m.setIgnoreLf false)) := by
+  unfold readData at h
+  split at h
+  · exact popExceptFrom_none o _ m m' inp inp' h
+  · rename_i hs
+    have hs' : o.exactErrors = false ∧ m.reconsume = false ∧ m.ignoreLf = false := by
+      simpa [and_assoc] using hs
+    cases inp with
+    | nil => simp at h; simp_all
+    | cons x xs =>
+      simp only at h
+      split at h
+      · have := popExceptFrom_none o _ m m' (x :: xs) inp' h
+        simp_all
+      · simp at h
+
+/-! ### character-reference sub-tokenizer -/
+
+/-- a char-ref step result with more input appended -/
+def CRRes.ext (r : CRRes) (e : Str) : CRRes :=
+  match r with
+  | .error x => .error x
+  | .ok (m, i, cr, st) => .ok (m, i ++ e, cr, st)
+
+theorem unconsumeNumeric_ext (m : Mach) (inp e : Str) (cr : CharRefSt) :
+    unconsumeNumeric m (inp ++ e) cr = (unconsumeNumeric m inp cr).ext e := by
+  simp [unconsumeNumeric, CRRes.ext, List.append_assoc]
+
+theorem finishNumericStatus_ext (o : Opts) (m : Mach) (inp e : Str) (cr : CharRefSt) :
+    finishNumericStatus o m (inp ++ e) cr = (finishNumericStatus o m inp cr).ext e := by
+  unfold finishNumericStatus
+  split <;> simp [CRRes.ext]
+
+theorem finishNamed_ext (o : Opts) (m : Mach) (inp e : Str) (cr : CharRefSt) (ec : Option Char) :
+    finishNamed o m (inp ++ e) cr ec = (finishNamed o m inp cr ec).ext e := by
+  unfold finishNamed
+  repeat' split
+  all_goals
+    first
+      | (simp [CRRes.ext, List.append_assoc]; done)
+      | (dsimp only; split <;> simp [CRRes.ext, List.append_assoc])
+
+/-- **stuck ⇒ nothing happened** -/
+theorem crStep_stuck (o : Opts) (m : Mach) (inp : Str) (cr : CharRefSt) (h : peek m inp = none) :
+    crStep o m inp cr = .ok (m, inp, cr, .stuck) := by
+  unfold crStep; simp [h]
+
+/-- **monotone**: once a character can be peeked the step does not depend on what follows -/
+theorem crStep_mono (o : Opts) (m : Mach) (inp e : Str) (cr : CharRefSt) (c : Char)
+    (h : peek m inp = some c) :
+    crStep o m (inp ++ e) cr = (crStep o m inp cr).ext e := by
+  have hp := peek_mono m inp e c h
+  have hd := discardChar_mono m inp e c h
+  unfold crStep
+  simp only [h, hp, hd]
+  repeat' split
+  all_goals
+    first
+      | rfl
+      | simp [CRRes.ext, unconsumeNumeric_ext, finishNumericStatus_ext, finishNamed_ext, List.append_assoc]
 
 end H5V.Model.HtmlTok
